@@ -992,8 +992,6 @@ def _advance_head_front(state: State, heads: List[FlowHead]) -> List[FlowHead]:
             # We only advance merging heads if all internal events were processed
             actionable_heads.append(head)
             continue
-        elif head.status == FlowHeadStatus.ACTIVE:
-            head.position += 1
 
         if flow_state.status == FlowStatus.WAITING:
             flow_state.status = FlowStatus.STARTING
@@ -1001,6 +999,11 @@ def _advance_head_front(state: State, heads: List[FlowHead]) -> List[FlowHead]:
         flow_finished = False
         flow_aborted = False
         try:
+            # Updating the head position evaluates the next element (event matching
+            # structures), so it must be covered by the error handling as well
+            if head.status == FlowHeadStatus.ACTIVE:
+                head.position += 1
+
             new_heads = slide(state, flow_state, flow_config, head)
 
             # Advance all new heads created by a head fork
